@@ -38,6 +38,8 @@ type vfFile struct {
 	mtime int64
 	isDir bool
 	link  string
+	// sizeZero: the backend does not know sizes: Stat reports 0 whatever the content is
+	sizeZero bool
 	mode  os.FileMode
 }
 
@@ -84,6 +86,8 @@ type vfStore struct {
 	// ShortAt, if set, may cap a ReadAt at fewer bytes than asked for, with a nil error (a short
 	// DATA reply that is not the end of the file: unusual, legal for a peer). 0 = no cap.
 	ShortAt func(path string, off int64, n int) int
+	// ReportSizeZero: files created from now on report size 0 in their attributes (a backend without sizes, procfs-like)
+	ReportSizeZero bool
 	Now     int64
 }
 
@@ -120,7 +124,7 @@ func (s *vfStore) Objs() []*vfObj {
 // Put creates or replaces a regular file.
 func (s *vfStore) Put(path string, data []byte) {
 	s.mu.Lock()
-	s.files[path] = &vfFile{data: append([]byte(nil), data...), mode: 0o644, mtime: s.Now}
+	s.files[path] = &vfFile{data: append([]byte(nil), data...), mode: 0o644, mtime: s.Now, sizeZero: s.ReportSizeZero}
 	s.mu.Unlock()
 }
 
@@ -315,6 +319,9 @@ func (i vfStoreInfo) Size() int64 {
 	if i.f.link != "" {
 		return int64(len(i.f.link))
 	}
+	if i.f.sizeZero {
+		return 0
+	}
 	return int64(len(i.f.data))
 }
 func (i vfStoreInfo) Mode() os.FileMode {
@@ -354,7 +361,7 @@ func (h vfHBase) open(r *Request, iface, kind string) (*vfObj, error) {
 			s.mu.Unlock()
 			return nil, os.ErrNotExist
 		}
-		f = &vfFile{mode: 0o644, mtime: s.Now}
+		f = &vfFile{mode: 0o644, mtime: s.Now, sizeZero: s.ReportSizeZero}
 		s.files[r.Filepath] = f
 	} else if f.isDir {
 		s.mu.Unlock()
